@@ -108,6 +108,10 @@ func c11(c *Ctx) {
 				if builtinName(info, s) == "append" && len(s.Args) > 1 && !s.Ellipsis.IsValid() {
 					emitted = append(emitted, s.Args[1:]...)
 				}
+				// … or b.WriteByte(x) on a strings.Builder / bytes.Buffer
+				if isCallTo(info, s, "(*strings.Builder).WriteByte", "(*bytes.Buffer).WriteByte") && len(s.Args) == 1 {
+					emitted = append(emitted, s.Args[0])
+				}
 			}
 			return true
 		})
